@@ -8,7 +8,7 @@ Level (i)  in-process: the module is exec'd, `tbot.log.LOGFILE` is pointed at an
 Level (ii) subprocess: the module is written to a fresh directory that holds nothing else, the
            entry point is run with the JSON log enabled, the log is parsed with
            <repo>/generators/logparser.py."""
-import atexit, importlib.util, json, os, queue, re, shutil, subprocess, sys, tempfile, threading
+import atexit, importlib.util, json, os, queue, re, shutil, subprocess, sys, tempfile, threading, zlib
 
 import tcgen
 
@@ -22,12 +22,21 @@ def b01(x):
     return "1" if x is True else "0" if x is False else "?"
 
 
+def canon_name(n):
+    """testcase names of the generated programs are <form letter><number>; any other name an event
+    carries is mapped to a name no generated testcase has (number >= 10**9), so that the observation
+    stays well-formed and the Spec judges it (and shrinking works)"""
+    if isinstance(n, str) and NAME_RE.match(n) and len(n) < 9:
+        return n
+    return "d%d" % (10 ** 9 + zlib.crc32(repr(n).encode()) % 1000)
+
+
 def canon_event(ty, data):
     """one log event -> wire item (None = not part of the observation)"""
     if ty == ["tc", "begin"]:
-        return "B:%s" % data.get("name")
+        return "B:%s" % canon_name(data.get("name"))
     if ty == ["tc", "end"]:
-        return "E:%s:%s:%s" % (data.get("name"), b01(data.get("success")), b01(data.get("skipped")))
+        return "E:%s:%s:%s" % (canon_name(data.get("name")), b01(data.get("success")), b01(data.get("skipped")))
     if len(ty) == 2 and ty[0] == "xt":
         return "%s:%s:%s" % (ty[1], data.get("name"), data.get("val"))
     if ty == ["exception"]:
@@ -35,9 +44,7 @@ def canon_event(ty, data):
         return "X:%s" % EXC_TAG.get(n, "o%s" % n)
     if ty == ["tbot", "end"]:
         return "T:%s" % b01(data.get("success"))
-    if ty and ty[0] == "msg":
-        return None            # separator line, "Log written to …"
-    return "?%s" % "/".join(map(str, ty))
+    return None                # messages (separator line, "Log written to …"), commands, anything else
 
 
 # ---- level (i): in-process --------------------------------------------------------------------
